@@ -226,6 +226,32 @@ Section StarRing.
       rewrite <- HT2 at 1. ncr.
   Qed.
 
+  (* relativistic defining equations, convention of RelativisticKMatrix:
+     That (1 - i rho Khat) = Khat  and  (1 - i Khat rho) That = Khat
+     give the two-sided inverse Y = 1 + i rho That of 1 - i rho Khat and That = Khat Y. *)
+  Lemma inverse_from_defining_rel rho Kh Th :
+    mul Th (cay_den (mul rho Kh)) = Kh -> mul (cay_den (mul Kh rho)) Th = Kh ->
+    let Y := add one (mul ii (mul rho Th)) in
+    mul (cay_den (mul rho Kh)) Y = one /\ mul Y (cay_den (mul rho Kh)) = one /\ Th = mul Kh Y.
+  Proof.
+    intros E1 E2 Y. unfold Y. clear Y.
+    set (a' := cay_den (mul rho Kh)) in *.
+    assert (E3 : add a' (mul ii (mul rho Kh)) = one) by (unfold a'; ncr).
+    assert (F1 : mul (add one (mul ii (mul rho Th))) a' = add a' (mul ii (mul rho (mul Th a')))) by ncr.
+    assert (F2 : mul a' (add one (mul ii (mul rho Th))) = add a' (mul ii (mul a' (mul rho Th)))).
+    { rewrite (distr_r RA), (mul_1_r RA), cen_l. reflexivity. }
+    assert (G : mul rho (mul (mul ii (mul Kh rho)) Th) = mul (mul ii (mul rho Kh)) (mul rho Th)).
+    { rewrite <- (mul_assoc RA ii (mul Kh rho) Th), cen_l. ncr. }
+    assert (F3 : mul a' (mul rho Th) = mul rho (mul (cay_den (mul Kh rho)) Th)).
+    { transitivity (sub (mul rho Th) (mul (mul ii (mul rho Kh)) (mul rho Th))); [unfold a'; ncr|].
+      rewrite <- G. ncr. }
+    repeat split.
+    - rewrite F2, F3, E2. exact E3.
+    - rewrite F1, E1. exact E3.
+    - rewrite (distr_r RA), (mul_1_r RA), cen_l.
+      rewrite <- E2 at 1. ncr.
+  Qed.
+
   Section Both.
     Variables dag tr : A -> A.
     Hypothesis DA : antiinv_ax dag.
@@ -337,7 +363,7 @@ Definition ent (l : list (list C)) (i j : nat) : C := nth j (nth i l []) 0.
 
 (* --- 1x1 --- *)
 Definition M1 := C.
-Definition m1_of (l : list (list C)) : M1 := ent l 0 0.
+Definition m1_of (l : list (list C)) : C := ent l 0 0.
 
 Lemma M1_ring : ring_ax C 0 1 Cplus Cmult Copp.
 Proof. constructor; intros; ring. Qed.
@@ -451,10 +477,205 @@ Fixpoint wdMC (ρ : envC) (m : list (list expr)) : Prop :=
   match m with [] => True | r :: m' => all_wdC ρ r /\ wdMC ρ m' end.
 
 (* the symbols K[i, j], P[i, 0], rho_i of ampform.dynamics.kmatrix (create_symbol_matrix names) *)
-Definition K1 (ρ : envC) : M1 := csym ρ "K[0, 0]".
+Definition K1 (ρ : envC) : C := csym ρ "K[0, 0]".
 Definition K2 (ρ : envC) : M2 :=
   mk2 (csym ρ "K[0, 0]") (csym ρ "K[0, 1]") (csym ρ "K[1, 0]") (csym ρ "K[1, 1]").
 Definition K3 (ρ : envC) : M3 :=
   mk3 (csym ρ "K[0, 0]") (csym ρ "K[0, 1]") (csym ρ "K[0, 2]")
       (csym ρ "K[1, 0]") (csym ρ "K[1, 1]") (csym ρ "K[1, 2]")
       (csym ρ "K[2, 0]") (csym ρ "K[2, 1]") (csym ρ "K[2, 2]").
+
+(* ------------------------------------------------------------------------------------ *)
+(* Part 3b: the denominators of a tree.  [wdC] of a big generated tree is a huge conjunction;
+   what a proof needs from it are the facts "this denominator is not zero".  [dens] collects
+   (an under-approximation of) the bases of negative integer powers; [dens_sound] extracts
+   the corresponding facts from [wdC] without unfolding it. *)
+Fixpoint dens (e : expr) : list expr :=
+  match e with
+  | App h args =>
+      (match h, args with
+       | HPow, [b; Num q] =>
+           match Qden q, Qnum q with
+           | 1%positive, Zneg _ => [b]
+           | _, _ => []
+           end
+       | _, _ => []
+       end) ++
+      (match h with HPiecewise => [] | _ => flat_map dens args end)
+  | _ => []
+  end.
+
+Fixpoint dedup (l : list expr) : list expr :=
+  match l with
+  | [] => []
+  | x :: t => if existsb (expr_eqb x) t then dedup t else x :: dedup t
+  end.
+
+Lemma Forall_dedup (P : expr -> Prop) l : Forall P l -> Forall P (dedup l).
+Proof.
+  induction 1 as [|x t Hx Ht IH]; cbn [dedup]; [constructor|].
+  destruct (existsb (expr_eqb x) t); [exact IH | constructor; assumption].
+Qed.
+
+Definition nz (ρ : envC) (d : expr) : Prop := denC ρ d <> 0.
+
+Lemma dens_args_sound ρ args :
+  Forall (fun a => wdC ρ a -> Forall (nz ρ) (dens a)) args ->
+  (fix all (l : list expr) : Prop := match l with [] => True | x :: l' => wdC ρ x /\ all l' end) args ->
+  Forall (nz ρ) (flat_map dens args).
+Proof.
+  induction 1 as [|a args Ha _ IH]; cbn [flat_map]; intros Hall; [constructor|].
+  destruct Hall as [H1 H2]. apply Forall_app. split; auto.
+Qed.
+
+Lemma dens_sound ρ e : wdC ρ e -> Forall (nz ρ) (dens e).
+Proof.
+  induction e as [s|q|h args IH] using expr_ind'; intros Hwd; try constructor.
+  destruct h; try (cbn [dens app]; constructor);
+    try (cbn [dens]; cbn [wdC] in Hwd; destruct Hwd as [Hall Hh];
+         apply Forall_app; split; [|apply dens_args_sound; assumption]).
+  all: try constructor.
+  (* HPow *)
+  destruct args as [|b [|[s|q|h' a'] [|c rest]]]; try constructor.
+  cbn [wd_headC map chd0] in Hh. unfold wd_cpowQ in Hh.
+  destruct (Qden q) as [p|p|]; try constructor.
+  destruct (Qnum q); try constructor; [exact Hh|constructor].
+Qed.
+
+Definition densM (m : list (list expr)) : list expr := dedup (flat_map (flat_map dens) m).
+
+Lemma densM_sound ρ m : wdMC ρ m -> Forall (nz ρ) (densM m).
+Proof.
+  intros H. apply Forall_dedup. induction m as [|r m IH]; cbn [flat_map]; [constructor|].
+  destruct H as [Hr Hm]. apply Forall_app. split; [|apply IH; exact Hm].
+  clear IH Hm. induction r as [|e r IHr]; cbn [flat_map]; [constructor|].
+  destruct Hr as [He Hr]. apply Forall_app. split; [apply dens_sound; exact He | apply IHr; exact Hr].
+Qed.
+
+(* tactics shared by C09/C10: from [H : wdMC ρ m] to named non-zero denominators *)
+Definition DEN (d e : C) : Prop := d = e.
+Ltac forall_inv HD :=
+  lazymatch type of HD with
+  | Forall _ [] => clear HD
+  | Forall _ (_ :: _) =>
+      let H1 := fresh "Hnz" in let H2 := fresh "HD" in
+      pose proof (Forall_inv HD) as H1; pose proof (Forall_inv_tail HD) as H2; clear HD;
+      unfold nz in H1; denC_simpl_in H1;
+      forall_inv H2
+  end.
+Ltac dens_of H :=
+  apply densM_sound in H;
+  match type of H with Forall _ ?L => let L' := eval vm_compute in L in change L with L' in H end;
+  forall_inv H.
+Ltac name_dens :=
+  repeat match goal with
+         | H : ?e <> ?z |- _ =>
+             (tryif is_var e then fail else idtac);
+             let d := fresh "den" in let Ed := fresh "Eden" in
+             remember e as d eqn:Ed in *; change (DEN d e) in Ed
+         end.
+Ltac name_atoms cs :=
+  repeat match goal with
+         | |- context [Cconj (Csqrt (cs ?s))] =>
+             let v := fresh "cr" in set (v := Cconj (Csqrt (cs s))) in *; clearbody v
+         end;
+  repeat match goal with
+         | |- context [Csqrt (cs ?s)] => let v := fresh "sr" in set (v := Csqrt (cs s)) in *; clearbody v
+         end.
+Ltac fld :=
+  lazymatch goal with
+  | E1 : DEN ?a1 ?b1, E2 : DEN ?a2 ?b2, E3 : DEN ?a3 ?b3, E4 : DEN ?a4 ?b4, E5 : DEN ?a5 ?b5, E6 : DEN ?a6 ?b6 |- _ =>
+      field [Ci2o (E1 : a1 = b1) (E2 : a2 = b2) (E3 : a3 = b3) (E4 : a4 = b4) (E5 : a5 = b5) (E6 : a6 = b6)]
+  | E1 : DEN ?a1 ?b1, E2 : DEN ?a2 ?b2, E3 : DEN ?a3 ?b3, E4 : DEN ?a4 ?b4, E5 : DEN ?a5 ?b5 |- _ =>
+      field [Ci2o (E1 : a1 = b1) (E2 : a2 = b2) (E3 : a3 = b3) (E4 : a4 = b4) (E5 : a5 = b5)]
+  | E1 : DEN ?a1 ?b1, E2 : DEN ?a2 ?b2, E3 : DEN ?a3 ?b3, E4 : DEN ?a4 ?b4 |- _ =>
+      field [Ci2o (E1 : a1 = b1) (E2 : a2 = b2) (E3 : a3 = b3) (E4 : a4 = b4)]
+  | E1 : DEN ?a1 ?b1, E2 : DEN ?a2 ?b2, E3 : DEN ?a3 ?b3 |- _ =>
+      field [Ci2o (E1 : a1 = b1) (E2 : a2 = b2) (E3 : a3 = b3)]
+  | E1 : DEN ?a1 ?b1, E2 : DEN ?a2 ?b2 |- _ => field [Ci2o (E1 : a1 = b1) (E2 : a2 = b2)]
+  | E1 : DEN ?a1 ?b1 |- _ => field [Ci2o (E1 : a1 = b1)]
+  | _ => field [Ci2o]
+  end.
+Ltac fld_close := fld; repeat split; assumption.
+
+(* ---- Sum(body, (R, 1, n_poles)) ---- *)
+Definition sum_parts (e : expr) : option (expr * expr) :=
+  match e with
+  | App (HOther h) [body; lim] => if String.eqb h "Sum" then Some (body, lim) else None
+  | _ => None
+  end.
+Definition pole_limits : expr := App HTuple [Sym "R"; Num 1; Sym "n_poles"].
+(* sum_{R=1}^{n} f R *)
+Fixpoint sum_poles (f : nat -> C) (n : nat) : C :=
+  match n with O => 0 | S k => sum_poles f k + f (S k) end.
+(* The pole index R only occurs inside Indexed symbols (m[R], Gamma[R, i], ...), which the
+   serialiser keeps atomic; the meaning of the Sum is the sum over r = 1..n of the body in the
+   environment [ρ r] that binds those atoms to the r-th pole's parameters. *)
+Definition den_pole_sum (ρ : nat -> envC) (n : nat) (e : expr) : C :=
+  match sum_parts e with
+  | Some (body, _) => sum_poles (fun r => denC (ρ r) body) n
+  | None => 0
+  end.
+Definition wd_pole_sum (ρ : nat -> envC) (n : nat) (e : expr) : Prop :=
+  match sum_parts e with
+  | Some (body, lim) => lim = pole_limits /\ forall r, (1 <= r <= n)%nat -> wdC (ρ r) body
+  | None => False
+  end.
+
+Lemma sum_poles_real_ext (f g : nat -> C) n :
+  (forall r, (1 <= r <= n)%nat -> exists x : R, f r = RtoC x /\ g r = RtoC x) ->
+  exists x : R, sum_poles f n = RtoC x /\ sum_poles g n = RtoC x.
+Proof.
+  induction n as [|n IH]; intros H.
+  - exists 0%R. split; reflexivity.
+  - destruct IH as [x [Hf Hg]]; [intros r Hr; apply H; split; [apply Hr | apply le_S, Hr]|].
+    destruct (H (S n)) as [y [Hy1 Hy2]]; [split; [apply le_n_S, Nat.le_0_l | apply le_n]|].
+    exists (x + y)%R. cbn [sum_poles]. rewrite Hf, Hg, Hy1, Hy2, RtoC_plus. split; reflexivity.
+Qed.
+
+(* ------------------------------------------------------------------------------------ *)
+(* Part 4: syntactic checks on the deep AST                                               *)
+(* ------------------------------------------------------------------------------------ *)
+(* every [App] node satisfies [chk] *)
+Fixpoint all_nodes (chk : head -> list expr -> bool) (e : expr) : bool :=
+  match e with
+  | App h args => chk h args && forallb (all_nodes chk) args
+  | _ => true
+  end.
+(* number of [App] nodes satisfying [p] *)
+Fixpoint count_nodes (p : head -> list expr -> bool) (e : expr) : nat :=
+  match e with
+  | App h args => (if p h args then 1 else 0) + fold_right Nat.add 0%nat (map (count_nodes p) args)
+  | _ => 0%nat
+  end.
+(* the function symbol / class [f] occurs as a head *)
+Fixpoint occursb (f : string) (e : expr) : bool :=
+  match e with
+  | App h args =>
+      (match h with HOther g => String.eqb g f | _ => false end) || existsb (occursb f) args
+  | _ => false
+  end.
+
+Lemma map_denC_ext ρ ρ' args :
+  Forall (fun a => denC ρ a = denC ρ' a) args -> map (denC ρ) args = map (denC ρ') args.
+Proof. induction 1 as [|a l Ha _ IH]; cbn [map]; [reflexivity | rewrite Ha, IH; reflexivity]. Qed.
+
+(* If the head [f] does not occur in [e], the value of [e] does not depend on how [f] is
+   interpreted: two environments that agree on all symbols and on every other function
+   symbol give the same denotation. *)
+Lemma occurs_sound (f : string) ρ ρ' :
+  (forall s, csym ρ s = csym ρ' s) ->
+  (forall g vs, g <> f -> cfn ρ g vs = cfn ρ' g vs) ->
+  forall e, occursb f e = false -> denC ρ e = denC ρ' e.
+Proof.
+  intros Hs Hf. induction e as [s|q|h args IH] using expr_ind'; intros Hocc.
+  - apply Hs.
+  - reflexivity.
+  - cbn [occursb] in Hocc. apply orb_false_iff in Hocc as [Hh Hargs].
+    assert (E : map (denC ρ) args = map (denC ρ') args).
+    { apply map_denC_ext. clear Hh. induction IH as [|a l Ha _ IHl]; constructor.
+      - apply Ha. cbn [existsb] in Hargs. apply orb_false_iff in Hargs. tauto.
+      - apply IHl. cbn [existsb] in Hargs. apply orb_false_iff in Hargs. tauto. }
+    cbn [denC]. rewrite E. destruct h; try reflexivity.
+    cbn [appC]. apply Hf. intros ->. rewrite String.eqb_refl in Hh. discriminate.
+Qed.
